@@ -246,19 +246,6 @@ def run_case(case, res):
         R.reject(res, "copy-left-unlowered")
         return out
     res["programs"] += 1
-    # every runtime call must agree with the declaration the pass emitted for it (the C runtime is linked against that signature)
-    decls = {op.sym_name.data: op for op in m.walk() if op.name == "func.func"}
-    for op in m.walk():
-        if op.name != "func.call":
-            continue
-        R.bump(res, "runtime_calls_checked_against_declaration")
-        callee = op.callee.root_reference.data
-        d = decls.get(callee)
-        want = [str(t) for t in d.function_type.inputs.data] if d is not None else None
-        have = [str(o.type) for o in op.operands]
-        if want != have:
-            out.append({"kind": "runtime-call-disagrees-with-declaration", "detail": f"call of {callee} passes {have}, the emitted declaration takes {want}", "case": case})
-            return out
     mach = DmaMachine(m, step_budget=400_000)
     # source memory: unique tags per (element, byte); everything else unmapped
     src_fp = set()
